@@ -95,6 +95,17 @@ func (c *ChildExec) Cleanup() {
 // runChild is the child side: a line interpreter around an executor, with an address
 // space limit and a per-operation allocation measurement.
 func runChild(role string, args []string) {
+	// a child never outlives the process that started it (a killed or crashed harness must not
+	// leave servers or executors behind)
+	parent := os.Getppid()
+	go func() {
+		for {
+			time.Sleep(500 * time.Millisecond)
+			if os.Getppid() != parent {
+				os.Exit(3)
+			}
+		}
+	}()
 	// 6 GiB of address space: a decoder that tries to allocate from a hostile count dies here
 	if role == "codec" || role == "lib" {
 		lim := syscall.Rlimit{Cur: 6 << 30, Max: 6 << 30}
